@@ -17,3 +17,18 @@ package tdelfields
 //@   loop 1: invariant -1 <= rangeindex && rangeindex < len(tf.locators) && fields === record.Fields
 //@   loop 1: invariant forall j int :: 0 <= j && j <= rangeindex ==> len(record.Fields[tf.locators[j]]) == 0
 //@   loop 1: invariant forall i int :: 0 <= i && i < len(record.Fields) && (forall j int :: 0 <= j && j < len(tf.locators) ==> tf.locators[j] != i) ==> record.Fields[i] === old(record.Fields[i])
+
+// ==== configuration: verify => construct (C16) ===================================================================================
+//@ pure func cfgok(c *Config, s base.LogSchema) bool := len(c.Keys) > 0 && forall i int :: 0 <= i && i < len(c.Keys) ==> base.hasf(s, key(c.Keys[i]))
+//@ func (c *Config) VerifyConfig(schema base.LogSchema) error
+//@   property C16
+//@   requires c != nil
+//@   modifies nothing
+//@   ensures[accepted-config-is-constructible] result == nil ==> cfgok(c, schema)
+//@   loop 1: invariant -1 <= rangeindex && rangeindex < len(c.Keys) && forall i int :: 0 <= i && i <= rangeindex ==> base.hasf(schema, key(c.Keys[i]))
+//@ func (c *Config) NewTransform(schema base.LogSchema, _ logger.Logger, _ base.LogCustomCounterRegistry) base.LogTransform
+//@   property C16
+//@   requires c != nil && cfgok(c, schema)
+//@   modifies nothing
+//@   ensures  result != nil
+//@   loop 1: invariant -1 <= rangeindex && rangeindex < len(c.Keys)
